@@ -73,7 +73,7 @@ P = {
  "C06": dict(
   text="Theorems over Pileup.v (CIGAR walk of _parse_read, eligibility filter, MNP merge, quality binning, _make_coverage folding) for every read "
        "list, CIGAR and gene view: depth at every position = number of eligible spanning reads (M/=/X/D once, S/I consume no reference), substitution "
-       "and reference counts inside the RefSeq-mapped part, complete catalogued multi-substitution counted once at its first position, ineligible "
+       "and reference counts inside the RefSeq-mapped part, complete catalogued multi-substitution counted once at its first position (and its component and later-reference cells as sums over reads), ineligible "
        "reads contribute nothing, qualities kept (binned), result independent of read order, insertions keyed at the next base; the locus test and fetch window of the loader are regenerated from "
        "sam.py and proved equal to the model's (C06_tie_in_region, C06_tie_window). " + TIE +
        "Reads are generated (all CIGAR ops, clips, indels, MNPs, qualities, flags, positions at region borders), written to real BAM files with "
